@@ -478,7 +478,7 @@ func (e *Engine) constValue(c *ssa.Const) Value {
 			return MkStr(constant.StringVal(c.Value))
 		case u.Info()&types.IsFloat != 0:
 			f, _ := constant.Float64Val(c.Value)
-			return &FloatV{f}
+			return &FloatV{F: f}
 		}
 	}
 	throwf("const of type %s", t)
@@ -1058,9 +1058,9 @@ func (e *Engine) convert(s *State, v Value, from, to types.Type) Value {
 			case *Term:
 				if x.isI() {
 					f, _ := new(big.Float).SetInt(x.IV).Float64()
-					return &FloatV{f}
+					return &FloatV{F: f}
 				}
-				throwf("float(symbolic int)")
+				return &FloatV{Unknown: true}
 			}
 		}
 		if toInt {
@@ -1275,15 +1275,18 @@ func (e *Engine) binopVal(s *State, op token.Token, a, b Value, ta, tb types.Typ
 		if !ok {
 			throwf("float binop with %T", b)
 		}
+		if fa.Unknown || fb.Unknown {
+			throwf("arithmetic on a float derived from a symbolic integer")
+		}
 		switch op {
 		case token.ADD:
-			return &FloatV{fa.F + fb.F}, nil
+			return &FloatV{F: fa.F + fb.F}, nil
 		case token.SUB:
-			return &FloatV{fa.F - fb.F}, nil
+			return &FloatV{F: fa.F - fb.F}, nil
 		case token.MUL:
-			return &FloatV{fa.F * fb.F}, nil
+			return &FloatV{F: fa.F * fb.F}, nil
 		case token.QUO:
-			return &FloatV{fa.F / fb.F}, nil
+			return &FloatV{F: fa.F / fb.F}, nil
 		case token.EQL:
 			return MkBool(fa.F == fb.F), nil
 		case token.NEQ:
@@ -1417,7 +1420,7 @@ func (e *Engine) unop(s *State, fr *Frame, x *ssa.UnOp) []*State {
 		e.setLocal(fr, x, Not(v.(*Term)))
 	case token.SUB:
 		if f, ok := v.(*FloatV); ok {
-			e.setLocal(fr, x, &FloatV{-f.F})
+			e.setLocal(fr, x, &FloatV{F: -f.F})
 			break
 		}
 		bits, signed, _ := intKind(x.Type())
